@@ -131,4 +131,4 @@ func runBlocked(c BlockedCase) *vkit.Outcome {
 
 var propBlocked = vkit.NewProp([]string{"C04"}, "c04blockedlist", genBlocked, runBlocked)
 
-func TestVerifC04BlockedList(t *testing.T) { propBlocked.Check(t) }
+func TestVerifC04BlockedList(t *testing.T) { propBlocked.CrashFile = true; propBlocked.Check(t) }
